@@ -90,6 +90,43 @@ def abs_by_sign(p, dot, sg, pc):
     return p
 
 
+def spin_endpoint(got, cx):
+    """a = 1 in the spin overload: the sines are sin(-k*pi~) and sin(theta + k*pi~) with k an integer and pi~ the rounded pi.  Read pi~ as pi:
+    sin(k pi) = 0 and cos(k pi) = sigma with sigma^2 = 1.  Returns the rewritten lanes and sigma (None if no such atom occurs)."""
+    sigma = Poly.atom(('spin_sign',))
+    found = [False]
+
+    def split(arg):
+        # arg = rest + c * K with K the converted spin count (an opaque non-input atom times the constant pi~)
+        for m, cf in arg.t.items():
+            if len(m) == 1 and P.atom_key(m[0])[0] not in ('in', 'fn:acos', 'fn:atan2') and abs(abs(float(cf)) - 3.141592653589793) < 1e-6:
+                rest = arg - Poly({m: cf})
+                return rest, (1 if cf > 0 else -1)
+        return None
+
+    def rw(p):
+        for a_ in trig_atoms(p):
+            k_ = P.atom_key(a_)
+            sp_ = split(k_[1][1])
+            if sp_ is None:
+                continue
+            rest, sgn_ = sp_
+            found[0] = True
+            # sin(rest +- k pi) = sin(rest) cos(k pi) ; cos(rest +- k pi) = cos(rest) cos(k pi)
+            base = Poly.atom((k_[0], ('P', rest))) if not rest.is_zero() else (ZERO if k_[0] == 'fn:sin' else ONE)
+            p = p.subst(a_, base * sigma)
+        return p
+    out = tuple(Q4.deep(g, rw, cx) for g in got)
+    # sigma^2 -> 1
+    sa = list(sigma.t)[0][0]
+    out = tuple(P.reduce_ideal(g, sa, ONE) if sa in g.atoms() else g for g in out)
+    return out, (sigma if found[0] else None)
+
+
+def sincos_of_acos(p):
+    return acos_axioms(p, None)
+
+
 def zero_angle(p):
     """sin(0) -> 0, cos(0) -> 1"""
     for a in trig_atoms(p):
@@ -99,17 +136,22 @@ def zero_angle(p):
     return p
 
 
-def interp_case(fn_, T, lay='xyzw', negate=True, call=None):
+def interp_case(fn_, T, lay='xyzw', negate=True, spin=False):
     """fn_ in slerp / mix / shortMix"""
     sc = G.scalar(T)
     tg = sc.tag
     qt = G.quat(T)
     pX, pY, pA = Par('x', qt), Par('y', qt), Par('a', sc)
-    k = K('%s_%s' % (fn_, tg), [Par('o', qt, False), pX, pY, pA], '*o = %s(*x, *y, *a);' % fn_, CFG)
-    k0 = K('%s_a0_%s' % (fn_, tg), [Par('o', qt, False), pX, pY], '*o = %s(*x, *y, %s(0));' % (fn_, sc.cpp), CFG)
-    k1 = K('%s_a1_%s' % (fn_, tg), [Par('o', qt, False), pX, pY], '*o = %s(*x, *y, %s(1));' % (fn_, sc.cpp), CFG)
-    ks = K('%s_sym_%s' % (fn_, tg), [Par('o', qt, False), pX, pY, pA], '*o = %s(*y, *x, %s(1) - *a);' % (fn_, sc.cpp), CFG)
-    name = '%s<%s>' % (fn_, tg)
+    sp = [Par('k', G.scalar('int'))] if spin else []
+    sa = ', *k' if spin else ''
+    kn = fn_ + ('_spin' if spin else '')
+    k = K('%s_%s' % (kn, tg), [Par('o', qt, False), pX, pY, pA] + sp, '*o = %s(*x, *y, *a%s);' % (fn_, sa), CFG)
+    k0 = K('%s_a0_%s' % (kn, tg), [Par('o', qt, False), pX, pY] + sp, '*o = %s(*x, *y, %s(0)%s);' % (fn_, sc.cpp, sa), CFG)
+    k1 = K('%s_a1_%s' % (kn, tg), [Par('o', qt, False), pX, pY] + sp, '*o = %s(*x, *y, %s(1)%s);' % (fn_, sc.cpp, sa), CFG)
+    ks = K('%s_sym_%s' % (kn, tg), [Par('o', qt, False), pX, pY, pA] + sp, '*o = %s(*y, *x, %s(1) - *a%s);' % (fn_, sc.cpp, sa), CFG)
+    kz = K('%s_k0_%s' % (kn, tg), [Par('o', qt, False), pX, pY, pA], '*o = %s(*x, *y, *a, 0);' % fn_, CFG) if spin else None
+    kplain = K('%s_%s' % (fn_, tg), [Par('o', qt, False), pX, pY, pA], '*o = %s(*x, *y, *a);' % fn_, CFG) if spin else None
+    name = '%s%s<%s>' % (fn_, '(spin k)' if spin else '', tg)
 
     def judge(ctx):
         for kk in (k, k0, k1, ks):
@@ -161,9 +203,16 @@ def interp_case(fn_, T, lay='xyzw', negate=True, call=None):
                 sg = sign_of_dot(asg, infos)
                 want = x if tgt == 'x' else tuple(q_.scale(sg if (sg is not None and negate) else 1) for q_ in y)
                 ok = True
+                spin_sign = None
+                if spin and tgt == 'y':
+                    got, spin_sign = spin_endpoint(got, cx)
+                    if spin_sign is not None:
+                        want = tuple(q_ * spin_sign for q_ in want)
                 for i in range(4):
                     g = Q4.deep(got[i], lambda q_: abs_by_sign(zero_angle(q_), dot, sg, cx), cx)
                     g = Q4.deep(g, lambda q_: acos_axioms(q_, None), cx)
+                    if spin_sign is not None:
+                        g = Q4.deep(g, lambda q_: sincos_of_acos(q_), cx)
                     d = units(P.reduce_inv(P.reduce_sqrt(P.reduce_inv(g - want[i]))))
                     d2 = Q4.clear_invsqrt(P.reduce_inv(g - want[i]), cx)
                     if not d.is_zero() and not (d2 is not None and units(P.reduce_sqrt(d2)).is_zero()):
@@ -206,6 +255,14 @@ def interp_case(fn_, T, lay='xyzw', negate=True, call=None):
             kth = P.atom_key(tha)
             theta = Poly.var(tha)
             A = theta * a
+            if spin:
+                # a * phi with phi = theta + k*pi: taken from the code as the argument of the sine that multiplies z (any sine argument that is a multiple of a)
+                for g in got:
+                    for at in trig_atoms(g):
+                        arg = P.atom_key(at)[1][1]
+                        q_, r_ = P.divmod_poly(arg, a)
+                        if r_.is_zero() and not q_.is_zero() and (q_ - theta).atoms() and not any(P.atom_key(b)[0] == 'in' and P.atom_key(b)[1] in ('x', 'y') for b in (q_ - theta).atoms()):
+                            A = arg
             sg = sign_of_dot(asg, infos)
             z = tuple(q_.scale(sg if (sg is not None and negate) else 1) for q_ in y)
             if kth[0] == 'fn:acos':
@@ -263,8 +320,14 @@ def interp_case(fn_, T, lay='xyzw', negate=True, call=None):
             sph_rows.append((asg, infos, got, sg, theta, A, nrm))
         if not nsph:
             res.append(R.ob(name + '.spherical', 'unit_length', R.UNDECIDED, 'no spherical arm found'))
+        # ---- spin count 0 is the plain function ---------------------------------------------------------------------------------------------------
+        if spin:
+            la, lb = L.out_lanes(ctx, kz, qt), L.out_lanes(ctx, kplain, qt)
+            for c in 'wxyz':
+                st_, det = L.compare_terms(lb[c], la[c])
+                res.append(R.ob('%s.k=0[%s]' % (name, c), 'spin_zero', st_, 'slerp(x, y, a, 0) == slerp(x, y, a): ' + det, kernel=kz.source()))
         # ---- symmetry ---------------------------------------------------------------------------------------------------------------------------
-        if fn_ == 'slerp':
+        if fn_ == 'slerp' and not spin:
             sym = []
             for asg, infos, got, cx in paths(ks):
                 if any(P.atom_key(b)[0] == 'fn:acos' for g in got for at in trig_atoms(g) for m in P.atom_key(at)[1][1].t for b in m):
@@ -280,7 +343,7 @@ def interp_case(fn_, T, lay='xyzw', negate=True, call=None):
                     res.append(R.ob('%s.symmetry(x.y %s 0)' % (name, '<' if sg == -1 else '>'), 'symmetry', R.PROVED if ok else R.UNDECIDED,
                                     'slerp(x, y, a) == %sslerp(y, x, 1 - a)' % ('-' if sg == -1 else ''), kernel=k.source() + '\n' + ks.source()))
         return res
-    return R.Case(name, [k, k0, k1, ks], judge)
+    return R.Case(name, [k, k0, k1, ks] + ([kz, kplain] if spin else []), judge)
 
 
 def lerp_cases(T):
@@ -326,13 +389,59 @@ def lerp_cases(T):
     return cs
 
 
+# ---- memory layout / constructor-order configurations ------------------------------------------------------------------------------------------------
+
+CFG_WXYZ = Cfg('slerp_wxyz', headers=HDR, defines=('GLM_ENABLE_EXPERIMENTAL', 'GLM_FORCE_QUAT_DATA_WXYZ'))
+CFG_XYZW = Cfg('slerp_ctor_xyzw', headers=HDR, defines=('GLM_ENABLE_EXPERIMENTAL', 'GLM_FORCE_QUAT_DATA_XYZW'))
+
+
+def layout_cases(tier):
+    """every interpolation function returns, component by component (by name), the same term under GLM_FORCE_QUAT_DATA_WXYZ (other memory order) and under
+    GLM_FORCE_QUAT_DATA_XYZW (other argument order of the four-scalar constructor) as in the default configuration"""
+    cs = []
+    for T in ('float', 'double'):
+        sc = G.scalar(T)
+        it_ = G.scalar('int')
+        fns = [('slerp', 'q q s', '*o = slerp(*a, *b, *s);'), ('slerp_spin', 'q q s i', '*o = slerp(*a, *b, *s, *i);'), ('mix', 'q q s', '*o = mix(*a, *b, *s);'), ('lerp', 'q q s', '*o = lerp(*a, *b, *s);'),
+               ('shortMix', 'q q s', '*o = shortMix(*a, *b, *s);'), ('fastMix', 'q q s', '*o = fastMix(*a, *b, *s);'), ('squad', 'q q q q s', '*o = squad(*a, *b, *c, *d, *s);'),
+               ('intermediate', 'q q q', '*o = intermediate(*a, *b, *c);'), ('dualquat_lerp', 'd d s', '*o = lerp(*a, *b, *s);'), ('dualquat_normalize', 'd', '*o = normalize(*a);')]
+        for fn_, sig, body in fns:
+            isd = sig[0] == 'd'
+            for cname, cfg, wx in (('wxyz', CFG_WXYZ, True), ('ctor_xyzw', CFG_XYZW, False)):
+                def mkk(cfg_, wx_, suffix):
+                    qt = (G.dualquat if isd else G.quat)(T, wxyz=wx_)
+                    params = [Par('o', qt, False)]
+                    names = iter('abcd')
+                    for ch in sig.split():
+                        if ch in 'qd':
+                            params.append(Par(next(names), qt))
+                        elif ch == 's':
+                            params.append(Par('s', sc))
+                        else:
+                            params.append(Par('i', it_))
+                    return K('lay_%s_%s%s' % (fn_, sc.tag, suffix), params, body, cfg_), qt
+                k, qd = mkk(CFG, False, '')
+                kc, qc = mkk(cfg, wx, '_' + cname)
+                rename = {}
+                for prm in kc.params:
+                    if prm[0] in 'abcd':
+                        for lane in qc.lanes:
+                            rename[tm.inp(prm[0], qc.lanes[lane] * 8, qc.elem * 8)] = tm.inp(prm[0], qd.lanes[lane] * 8, qd.elem * 8)
+                outs = [('%s' % (lane if isinstance(lane, str) else '.'.join(lane)), 'o', qd.lanes[lane], qc.lanes[lane], qd.elem) for lane in qd.lanes]
+                cs.append(L.config_pair_case('%s<%s>@%s' % (fn_, sc.tag, cname), 'layout', k, kc, outs, rename=rename if wx else None,
+                                             what='GLM_FORCE_QUAT_DATA_' + ('WXYZ' if wx else 'XYZW')))
+    return cs
+
+
 def cases(tier):
     cs = []
     for T in ('float', 'double'):
         cs.append(interp_case('slerp', T))
+        cs.append(interp_case('slerp', T, spin=True))
         cs.append(interp_case('mix', T, negate=False))
         cs.append(interp_case('shortMix', T))
         cs += lerp_cases(T)
+    cs += layout_cases(tier)
     cs += canaries()
     return cs
 
